@@ -123,6 +123,24 @@ func aggEvalSnap(r *core.Run, s *stack.Snapshot, c *aggCase) [4][][]int {
 			}
 		}
 	}
+	if r.Prop == "C05" {
+		// History must not matter: the exact levels again, after the coarse levels ran on the same snapshot.
+		for li := 1; li >= 0; li-- {
+			var a *stack.Aggregated
+			func() {
+				defer func() { _ = recover() }()
+				a = s.Aggregate(allLevels[li])
+			}()
+			r.Eval(1)
+			if a == nil {
+				continue
+			}
+			if got, want := mon.GotPartition(a), mon.RefPartition(s, allLevels[li]); !mon.PartEq(got, want) {
+				report("partition-after-coarser-aggregation/"+levelNames[li], fmt.Sprintf("%s after the coarser levels ran on the same snapshot: buckets %v, similarity classes %v", levelNames[li], got, want))
+				return parts
+			}
+		}
+	}
 	return parts
 }
 
